@@ -300,6 +300,15 @@ NATIVE_UNITS = {
                     "pushing a key that is not strictly greater than the current last item panics",
                     "1..=6 keys, every non-greater key")],
         params={"quick": {"NK": 10, "NR": 3000}, "thorough": {"NK": 13, "NR": 40000}}, timeout=1200),
+    "vouched_time": NativeUnit("vouched_time", "vouched_time",
+        [("vouched_time/src/lib.rs", os.path.join(KN, "vouched_time.rs"))],
+        [NativeTest("verif_native_window_edges_with_real_vouchers", ["C14"], "VouchedTime::new",
+                    "same triple as c14_check_composition, through the public constructor with REAL vouchers (the repository's test "
+                    "vouching parameters): Ok <=> vouched /\\ local not before the epoch (ns) /\\ -59900 <= floor-ms(local) - base <= 2990 "
+                    "without wrap-around; a constructed value reports its local time; other vouchers are rejected",
+                    "66 local times (epoch +- ns/ms, window widths, 2024, calendar limits, 2^k ns and ms with neighbours) x ~70 base times "
+                    "each (window edges, the same modulo 2^32 / 2^63 / 2^64, 0, u64::MAX, i64::MAX)")],
+        params={"quick": {}, "thorough": {}}),
     "hcobs": NativeUnit("hcobs", "hcobs",
         [("hcobs/src/lib.rs", os.path.join(KN, "hcobs_find_stuff.rs"))],
         [NativeTest("verif_native_find_stuff_sequence_positions", ["C01", "C02", "C07", "C08"], "find_stuff_sequence",
@@ -317,6 +326,7 @@ NATIVE_UNITS = {
 PROPERTIES = {
     "C14": {
         "level": "proof",
+        "native_units": ["vouched_time"],
         "kani_units": ["vouched_time"],
         "verus_units": ["vouched_time"],
         "assumptions": [
